@@ -6,6 +6,7 @@ from ..core.interp import Interp, Value, Const, Tup, Unknown, Slice, Frame
 from ..core.norm import Rat
 from ..domains.normdom import NormDomain, Sym, install_pi
 from .common import returns, as_rat
+from ..core.pattern import match_all, find
 
 SM = 'prysm.x.raytracing.spencer_and_murty.'
 SF = 'prysm.x.raytracing.surfaces.'
@@ -227,36 +228,46 @@ def frame_rules(run, db):
         okg = len(guards) == 1 and sum('np.matmul(R,' in ast.unparse(st).replace(' ', '') for st in guards[0].body) == 2
         run.check(okg, 'C19.rigid', fi.qual, 'rotation guard', 'position and direction are rotated together when R is given', 'position and direction are not rotated under the same condition', fi.loc())
     # raytrace: R into local, R^T into global, same P
-    src = ast.unparse(ft.node).replace(' ', '')
     calls = {ast.unparse(n.func): n for n in walk_no_nested(ft.node) if isinstance(n, ast.Call) and ast.unparse(n.func).startswith('transform_to_')}
-    lc, gc = calls.get('transform_to_local_coords'), calls.get('transform_to_global_coords')
-    if lc is None or gc is None:
+    if calls.get('transform_to_local_coords') is None or calls.get('transform_to_global_coords') is None:
         raise AnalysisError('raytrace: frame transforms not found')
-    la, ga = [ast.unparse(a) for a in lc.args], [ast.unparse(a) for a in gc.args]
-    rt = [n for n in walk_no_nested(ft.node) if isinstance(n, ast.Assign) and ast.unparse(n.targets[0]) == 'Rt']
-    rt_vals = sorted(ast.unparse(n.value).replace(' ', '') for n in rt)
-    run.check(la[1:2] == ['surf.P'] and la[3:4] == ['surf.R'] and ga[1:2] == ['surf.P'] and ga[3:4] == ['Rt'] and rt_vals == ['None', 'surf.R.T'], 'C19.rigid', ft.qual, 'inverse pair',
-              'into the surface frame with (P, R), back with (P, R^T): an exact rigid motion and its inverse', 'raytrace does not go in with (surf.P, surf.R) and out with (surf.P, surf.R.T): local%s global%s Rt=%s' % (la, ga, rt_vals), ft.loc())
-    run.check(la[0] == 'Pj' and la[2] == 'Sj' and ga[0] == 'Pj' and ga[2] == 'Sjp1', 'C19.rigid', ft.qual, 'operands', 'the intersection point and the new direction are carried back', 'raytrace transforms %s / %s' % (la, ga), ft.loc())
+    # one consistent binding of the loop's local names (metavariables V_*): in with (surf.P, surf.R), intersect, out with (surf.P, R^T)
+    b = match_all(ft.node, ['(V_P0, V_S) = transform_to_local_coords(V_P, V_surf.P, V_S, V_surf.R)',
+                            '(V_P, V_r) = intersect(V_P0, V_S, V_surf.sag_normal)',
+                            '(V_Pn, V_Sn) = transform_to_global_coords(V_P, V_surf.P, V_Sn, V_Rt)'])
+    rt_vals = []
+    if b:
+        rt_vals = sorted(ast.unparse(n.value).replace(' ', '').replace(b['V_surf'], 'SURF') for n in walk_no_nested(ft.node)
+                         if isinstance(n, ast.Assign) and isinstance(n.targets[0], ast.Name) and n.targets[0].id == b['V_Rt'])
+    run.check(b is not None and rt_vals == ['None', 'SURF.R.T'], 'C19.rigid', ft.qual, 'inverse pair',
+              'into the surface frame with (P, R), back with (P, R^T), the intersection point and the new direction carried back: an exact rigid motion and its inverse',
+              'raytrace does not go into the surface frame with (surf.P, surf.R), intersect there, and come back with (surf.P, surf.R.T) applied to the intersection point and the new direction (R^T values: %s)' % rt_vals, ft.loc())
     # dispatch on the surface type
-    ok = "ifsurf.typ==STYPE_REFLECT:Sjp1=reflect(Sj,r)" in src.replace('\n', '') and 'Sjp1=refract(nj,nprime,Sj,r)' in src and 'nj=nprime' in src
-    run.check(ok, 'C19.rigid', ft.qual, 'interaction', 'reflect(Sj, r) / refract(nj, n(wvl), Sj, r) with the index carried to the next surface', 'surface interaction wiring changed', ft.loc())
+    ok = False
+    if b:
+        env = {k: v for k, v in b.items() if k != '@nodes'}
+        b2 = match_all(ft.node, ['V_Sn = reflect(V_S, V_r)', 'V_np = V_surf.n(wvl)', 'V_Sn = refract(V_nj, V_np, V_S, V_r)', 'V_nj = V_np'], env=env)
+        if b2:
+            refl = [n for n in walk_no_nested(ft.node) if isinstance(n, ast.If) and ast.unparse(n.test).replace(' ', '') == '%s.typ==STYPE_REFLECT' % b['V_surf']]
+            ok = len(refl) == 1 and len(refl[0].body) == 1 and ast.unparse(refl[0].body[0]).replace(' ', '') == '%s=reflect(%s,%s)' % (b2['V_Sn'], b2['V_S'], b2['V_r'])
+    run.check(ok, 'C19.rigid', ft.qual, 'interaction', 'reflect(S, r) / refract(n_j, n(wvl), S, r) with the index carried to the next surface', 'surface interaction wiring changed', ft.loc())
 
 
 def normal_rules(run, db):
     # sag_normal: gradient of F = z - sag(x, y)
     f = db.func(SF + 'Surface.sag_normal')
-    stacks = [n for n in walk_no_nested(f.node) if isinstance(n, ast.Call) and ast.unparse(n.func).endswith('stack')]
-    ok = len(stacks) == 1 and ast.unparse(stacks[0].args[0]).replace(' ', '') == '[-Fx,-Fy,Fz]' and any(k.arg == 'axis' and ast.unparse(k.value) == '1' for k in stacks[0].keywords)
+    b = match_all(f.node, ['(V_z, V_Fx, V_Fy) = self.FFp(x, y)', 'V_Fz = np.broadcast_to(V_Fz, V_Fx.shape)', 'V_der = np.stack([-V_Fx, -V_Fy, V_Fz], axis=1)', 'return (V_z, V_der)'])
+    ones = [n for n in walk_no_nested(f.node) if b and isinstance(n, ast.Assign) and isinstance(n.targets[0], ast.Name) and n.targets[0].id == b['V_Fz'] and 'np.array([1.0]' in ast.unparse(n.value)]
+    ok = b is not None and len(ones) == 1
     run.check(ok, 'C19.normal', f.qual, 'gradient', 'normal direction is (-dz/dx, -dz/dy, 1), the gradient of z - sag(x, y)', 'sag_normal no longer returns (-Fx, -Fy, 1)', f.loc())
     # Newton step uses F = Z - sag and F' = S . r
     fn = db.func(SM + 'newton_raphson_solve_s')
-    src = ast.unparse(fn.node).replace(' ', '')
-    ok = 'Fj=Zj-sagj' in src and 'Fpj=_multi_dot(S_mask,r)' in src and 'sjp1=sj_mask-Fj/Fpj' in src and 'Pj=P1[mask]+sj_bcast*S_mask' in src
+    ok = match_all(fn.node, ['V_sm = V_sj[V_mask]', 'V_sb = V_sm[:, np.newaxis]', 'V_Sm = S[V_mask]', 'V_P = P1[V_mask] + V_sb * V_Sm', 'V_Z = V_P[..., 2]', '(V_sag, V_r) = FFp(V_X, V_Y)',
+                             'V_F = V_Z - V_sag', 'V_Fp = _multi_dot(V_Sm, V_r)', 'V_s1 = V_sm - V_F / V_Fp', 'V_sj[V_mask] = V_s1']) is not None
     run.check(ok, 'C19.normal', fn.qual, 'newton step', "s <- s - F/F' with F = Z - sag, F' = S . grad F, P = P1 + s S", 'Newton-Raphson step changed', fn.loc())
     fi = db.func(SM + 'intersect')
-    src = ast.unparse(fi.node).replace(' ', '')
-    run.check('s0=-Z0/m' in src and 'P1=P0+s0[:,np.newaxis]*S' in src, 'C19.normal', fi.qual, 'first guess', 'rays are first moved to the z = 0 plane of the surface frame', 'intersect first-guess changed', fi.loc())
+    okg = match_all(fi.node, ['V_Z0 = P0[..., 2]', 'V_m = S[..., 2]', 'V_s0 = -V_Z0 / V_m', 'V_P1 = P0 + V_s0[:, np.newaxis] * S', 'return newton_raphson_solve_s(V_P1, S, FFp, s1, eps, maxiter)']) is not None
+    run.check(okg, 'C19.normal', fi.qual, 'first guess', 'rays are first moved to the z = 0 plane of the surface frame', 'intersect first-guess changed', fi.loc())
     # no unguarded division by the radial coordinate on the normal path
     g = db.func(SF + 'surface_normal_from_cylindrical_derivatives')
     bad = []
@@ -312,8 +323,10 @@ def normal_rules(run, db):
     run.check(okf, 'C19.normal', g.qual, 'polar to cartesian', 'dz/dx = fp cos t - ft sin t / r, dz/dy = fp sin t + ft cos t / r (off axis)', 'polar-to-Cartesian derivative formula changed', g.loc())
     # conic FFp closure wiring
     fc = db.func(SF + 'Surface.conic')
-    src = ast.unparse(fc.node).replace(' ', '')
-    ok = "r,t=cart_to_polar(x,y,vec_to_grid=False)" in src and "z=conic_sag(params['c'],params['k'],rsq)" in src and "dr=conic_sag_der(params['c'],params['k'],r)" in src and 'rsq=r*r' in src
+    ffp = [n for n in ast.walk(fc.node) if isinstance(n, ast.FunctionDef) and n is not fc.node]
+    ok = len(ffp) == 1 and match_all(ffp[0], ['(V_r, V_t) = cart_to_polar(x, y, vec_to_grid=False)', 'V_rsq = V_r * V_r', "V_z = conic_sag(V_params['c'], V_params['k'], V_rsq)",
+                                              "V_dr = conic_sag_der(V_params['c'], V_params['k'], V_r)", '(V_ddx, V_ddy) = surface_normal_from_cylindrical_derivatives(V_dr, 0, V_r, V_t)',
+                                              'return (V_z, V_ddx, V_ddy)']) is not None
     run.check(ok, 'C19.normal', fc.qual, 'conic wiring', 'sag from r^2, slope from r, same (c, k)', 'conic sag/slope wiring changed', fc.loc())
 
 
@@ -361,8 +374,10 @@ def indexspace_rules(run, db):
             if 'nrays' in v or 'empty_like(P1)' in v or t == 'sj':
                 env[t] = GI if 'arange' in v else GA
     env.update({'P1': GA, 'S': GA})
-    if env.get('mask') != GI:
-        raise AnalysisError('newton_raphson_solve_s: `mask = arange(nrays)` not found before the loop')
+    gi_names = [k for k, v in env.items() if v == GI]
+    if len(gi_names) != 1:
+        raise AnalysisError('newton_raphson_solve_s: the set of ray numbers (`... = arange(nrays)`) was not found before the loop')
+    MASK = gi_names[0]
     problems = []
 
     def typ(e):
@@ -416,7 +431,7 @@ def indexspace_rules(run, db):
                 tv = typ(st.value)
                 for t in st.targets:
                     if isinstance(t, ast.Name):
-                        if t.id == 'mask' and tv != GI:
+                        if t.id == MASK and tv != GI:
                             problems.append((st, '`%s` replaces the carried set of GLOBAL ray numbers by %s: from the second shrink on, positions within the sub-batch are used as ray numbers, '
                                              'so the wrong rays are kept and their hit points are garbage' % (norm_stmt(st), 'a %s' % tv if tv else 'a value that is not a selection of it')))
                         env[t.id] = tv
@@ -457,7 +472,7 @@ def rotation_rules(run, db):
     from ..domains.normdom import Arr
     f = db.func('prysm.coordinates.make_rotation_matrix')
     body = f.node.body
-    start = next((i for i, st in enumerate(body) if isinstance(st, ast.Assign) and ast.unparse(st.targets[0]) == 'cos1'), None)
+    start = next((i for i, st in enumerate(body) if isinstance(st, ast.Assign) and isinstance(st.value, ast.Call) and ast.unparse(st.value.func).endswith('cos')), None)
     if start is None or not isinstance(body[-1], ast.Return):
         raise AnalysisError('make_rotation_matrix: matrix block not found')
     ret = ast.unparse(body[-1].value)
@@ -482,8 +497,9 @@ def rotation_rules(run, db):
               'make_rotation_matrix is not a rotation: %s; det = %s -- R^T is then not the inverse of R, so going into and out of a tilted surface frame is not a rigid motion and direction cosines lose unit length'
               % ('; '.join(bad[:2]), det.key()), f.loc())
     # unpacking: (z, y, x) angles, degrees unless told otherwise, short tuples zero-filled
-    src = ast.unparse(f.node).replace(' ', '')
-    ok = '(gamma,beta,alpha)=zyx' in src.replace('gamma,beta,alpha=zyx', '(gamma,beta,alpha)=zyx') and 'ifnotradians:zyx=truenp.radians(zyx)' in src.replace('\n', '').replace('    ', '')
+    ok = match_all(f.node, ['(V_g, V_b, V_a) = zyx', 'zyx = truenp.radians(zyx)', 'V_c1 = truenp.cos(V_a)', 'V_c2 = truenp.cos(V_b)', 'V_c3 = truenp.cos(V_g)',
+                            'V_s1 = truenp.sin(V_a)', 'V_s2 = truenp.sin(V_b)', 'V_s3 = truenp.sin(V_g)']) is not None \
+        and any(isinstance(n, ast.If) and ast.unparse(n.test).replace(' ', '') == 'notradians' and len(n.body) == 1 for n in walk_no_nested(f.node))
     run.check(ok, 'C19.rigid', f.qual, 'angle roles', 'zyx = (about z, about y, about x), converted from degrees once', 'make_rotation_matrix angle unpacking / unit conversion changed', f.loc())
     fs = db.func(SF + '_none_or_rotmat')
     src = ast.unparse(fs.node).replace(' ', '')
@@ -498,19 +514,23 @@ def state_rules(run, db):
     if len(loops) != 1:
         raise AnalysisError('raytrace: per-surface loop not found')
     carried = loop_carried(loops[0])
-    allowed = {'Pj', 'Sj', 'nj'}
+    bw = match_all(ft.node, ['(V_P0, V_S) = transform_to_local_coords(V_P, V_surf.P, V_S, V_surf.R)', 'V_Sn = refract(V_nj, V_np, V_S, V_r)'])
+    if bw is None:
+        raise AnalysisError('raytrace: ray state (position, direction, index) not identified')
+    allowed = {bw['V_P'], bw['V_S'], bw['V_nj']}
+    NJ = bw['V_nj']
     extra = sorted(carried - allowed)
     run.check(not extra, 'C19.rigid', ft.qual, 'per-surface state',
               'only the ray (Pj, Sj) and the current index nj flow from one surface to the next; everything else is recomputed from the surface at hand (carried: %s)' % sorted(carried),
               'in the per-surface loop `%s` may keep its value from an EARLIER surface (read before it is assigned on some path through the loop body): a surface without that '
               'attribute is then processed with the previous surface\'s value (e.g. a stale rotation R^T applied to an untilted surface after a tilted one)' % ', '.join(extra), ft.loc(loops[0]))
     from .common import reaching_at_end, ENTRY
-    reach = reaching_at_end(loops[0].body, 'nj')
+    reach = reaching_at_end(loops[0].body, NJ)
     bad = []
     for d in reach:
         if d is ENTRY:
             continue
-        ok_d = isinstance(d, ast.Assign) and ast.unparse(d.value) == 'nprime'
+        ok_d = isinstance(d, ast.Assign) and ast.unparse(d.value) == bw['V_np']
         if ok_d:
             par = [n for n in ast.walk(loops[0]) if isinstance(n, ast.If) and d in n.body + n.orelse]
             ok_d = any('STYPE_REFRACT' in ast.unparse(n.test) and d in n.body for n in par) or any(d in n.orelse for n in par)
@@ -527,7 +547,8 @@ def state_rules(run, db):
     if len(loops) != 1:
         raise AnalysisError('newton_raphson_solve_s: iteration loop not found')
     carried = loop_carried(loops[0])
-    run.check(carried == {'mask'}, 'C19.normal', fn.qual, 'iteration state', 'only the index set of unconverged rays is carried between Newton iterations (the step lengths live in sj)',
+    mk_ = [n.targets[0].id for n in fn.node.body if isinstance(n, ast.Assign) and isinstance(n.targets[0], ast.Name) and 'arange(nrays' in ast.unparse(n.value).replace(' ', '')]
+    run.check(len(mk_) == 1 and carried == set(mk_), 'C19.normal', fn.qual, 'iteration state', 'only the index set of unconverged rays is carried between Newton iterations (the step lengths live in sj)',
               'Newton iteration carries %s between iterations, expected only the unconverged-ray index set `mask`' % sorted(carried), fn.loc(loops[0]))
     tests = [n for n in ast.walk(loops[0]) if isinstance(n, ast.Compare) and len(n.ops) == 1 and any(isinstance(x, ast.Name) and x.id == 'eps' for x in ast.walk(n))]
     if not tests:
